@@ -1,5 +1,6 @@
 import RjModel.Model.Exe
 import RjModel.Lemmas.ExeLemmas
+import RjModel.Lemmas.PeLemmas4
 /-! # C19 — a deployed binary is a faithful, runnable, self-propagating copy
 
 The model `Rj.Exe` is the four functions of `exe_utils.rs` on byte lists with every Rust failure mode
@@ -9,7 +10,8 @@ every image that meets the explicit, decidable layout predicate `ValidElf` and e
 (`C19_elf_roundtrip`, `C19_elf_preserved`; helper lemmas in `Lemmas/ExeLemmas.lean`); the field access
 lemmas the surgery rests on; and the negation of "a malformed executable is rejected with an error
 rather than a crash" by concrete witnesses, which replay on the real code (known finding C19-F9).
-The general statement for **PE** is *not* proved (DESIGN.md, C19: partial) - for small file alignments
+For **PE** the round trip is proved too, for every image meeting `ValidPe` (`C19_pe_roundtrip`); what is not
+proved for PE is the preservation statement (it is carried by the structural oracle of the check; DESIGN.md, C19) - for small file alignments
 the code was wrong until this session (`C19_pe_small_alignment_repaired`, finding C19-F10, fixed in /repo). -/
 namespace Rj.C19
 open Rj.Exe
@@ -128,5 +130,29 @@ example : (match addElf elf1 [0x2e, 0x72] [9, 8, 7] with
 
 /-- the predicate is not trivially true: an image whose names section would lie inside the ELF header is refused -/
 example : ¬ ValidElf (elf1.set 160 8) [0x2e, 0x72] := by decide +kernel
+
+/-! ### PE: the general round trip -/
+
+/-- **PE round trip, for every valid layout and every non-empty payload**: if the image is a PE file of the layout
+`add_section_to_pe` is written for (`ValidPe`: the signature offset points behind the DOS header at `PE\0\0`; at least one
+section and room for one more; an optional header of at least 64 bytes; non-zero alignments; the aligned end of the section
+table inside the file; sizes, addresses and moved raw pointers below 2^32; no section has the new name; the name NUL-free and
+at most 8 bytes; the payload not empty) then adding the section succeeds and extracting it from the result returns the
+payload **followed by zeros up to the file alignment** and nothing else - any number of sections, any header gap (room for
+the new header or not: with the repair of C19-F10 as many whole file alignments are inserted as it takes), any alignment. -/
+theorem C19_pe_roundtrip (b name payload : Bytes) (v : ValidPe b name payload) :
+    ∃ out, addPe b name payload = .ok out ∧
+      extractPe out name = .ok (some (payload ++ zeros (alignUp payload.length (pFileAlign b) - payload.length))) ∧
+      alignUp payload.length (pFileAlign b) < payload.length + pFileAlign b := by
+  obtain ⟨out, h1, h2⟩ := C19_pe_roundtrip_aux b name payload v
+  exact ⟨out, h1, h2, (alignUp_bounds _ _ v.hpl v.hfa).2⟩
+
+/-- Non-vacuity: the two concrete images above meet the layout predicate - one with room for the new header (`pe1`), one
+without and with a file alignment (16) smaller than a section header (`pe2`, the layout of finding C19-F10) -/
+example : ValidPe pe1 [0x2e, 0x72] [1, 2] ∧ ValidPe pe2 [0x2e, 0x72] [1, 2, 3, 4] := by
+  constructor <;> decide +kernel
+
+/-- the predicate refuses what the code cannot handle: an empty payload (`align(0, _)` underflows: C19-F9) -/
+example : ¬ ValidPe pe1 [0x2e, 0x72] [] := by decide +kernel
 
 end Rj.C19
